@@ -9,7 +9,7 @@ git -C $cl apply "$patch" || { echo "patch does not apply"; rm -rf $cl; exit 2; 
 cd /verif
 for id in "$@"; do
   echo "=== $id on $(basename $(dirname $patch))"
-  VERIF_REPO=$cl VERIF_KEEP_TREES=1 timeout 3600 ./check $id --tier $tier 2>&1 | grep -v "^\[build\]" | cut -c1-300 | tail -8
+  VERIF_REPO=$cl VERIF_EVIDENCE_DIR=/var/tmp/mpir-verif-evidence-scratch VERIF_KEEP_TREES=1 timeout 3600 ./check $id --tier $tier 2>&1 | grep -v "^\[build\]" | cut -c1-300 | tail -8
   echo "exit=${PIPESTATUS[0]}"
 done
 rm -rf $cl
